@@ -41,7 +41,7 @@ def build():
     iq, jq = z3.Ints('i j')
 
     def item_of(e):
-        return z3.If(S.is_tup(e), S.items(e)[1], e)
+        return z3.If(S.is_tup(e), S.at(S.items(e), 1), e)
 
     def wl(h, w):
         return h.list(h.attr(w, 'work_list'))
@@ -50,8 +50,15 @@ def build():
         return h.dom(h.attr(w, 'all_data'))
 
     def prio(h, w):
+        """the work list is a priority queue (its priority table is non-empty): an uninterpreted predicate of the table's key set, DEFINED (as `some key exists`) at the entry of
+        every SimpleWorkList method by prio_def — keeps the quantifier out of the If-then-else of the invariant"""
+        d = h.dom(h.attr(w, 'priority_dict'))
+        return z3.Function('priority_table_nonempty', d.sort(), z3.BoolSort())(d)
+
+    def prio_def(ex, st):
         kk = z3.Const('pk', S.PyObj())
-        return z3.Exists([kk], z3.Select(h.dom(h.attr(w, 'priority_dict')), kk))
+        d = st.sel('dom', S.addr(st.sel('attr:priority_dict', S.addr(st.env['self'].t))))
+        st.assume(z3.Function('priority_table_nonempty', d.sort(), z3.BoolSort())(d) == z3.Exists([kk], z3.Select(d, kk)))
 
     def revealed(c):
         """the queue invariant is an OPAQUE predicate of (entries, all_data, priority keys) everywhere except inside SimpleWorkList's own methods, where its
@@ -98,15 +105,16 @@ def build():
         new = S.fresh('heap', S.SeqP())
         st.set_field('list', z3.Store(st.field('list'), a, new))
         e = z3.Const('he', S.PyObj())
-        st.assume(z3.Length(new) == z3.Length(old) + 1)
+        n0 = z3.Length(old)
+        st.assume(z3.Length(new) == n0 + 1)
         st.assume(z3.ForAll([e], S.member(new, e) == z3.Or(S.member(old, e), e == x.t), patterns=[S.member(new, e)]))
         st.assume(S.member(new, x.t))
-        # a permutation keeps entries pairwise different in their item component if they were and the pushed item is new
+        # the permutation itself, as an (injective) index map: position i of the new list holds old[perm(i)], or the pushed entry when perm(i) == len(old)
+        perm = z3.Function(f'heap_perm_{next(S._counter)}', z3.IntSort(), z3.IntSort())
         i_, j_ = z3.Ints('hi hj')
-        nodup = lambda sq: z3.ForAll([i_, j_], z3.Implies(z3.And(i_ >= 0, i_ < j_, j_ < z3.Length(sq)), item_of(S.at(sq, i_)) != item_of(S.at(sq, j_))),
-                                     patterns=[z3.MultiPattern(S.at(sq, i_), S.at(sq, j_))])
-        fresh_item = z3.ForAll([i_], z3.Implies(z3.And(i_ >= 0, i_ < z3.Length(old)), item_of(S.at(old, i_)) != item_of(x.t)), patterns=[S.at(old, i_)])
-        st.assume(z3.Implies(z3.And(nodup(old), fresh_item), nodup(new)))
+        st.assume(z3.ForAll([i_], z3.Implies(z3.And(i_ >= 0, i_ <= n0), z3.And(perm(i_) >= 0, perm(i_) <= n0,
+                                                                               S.at(new, i_) == z3.If(perm(i_) == n0, x.t, S.at(old, perm(i_))))), patterns=[S.at(new, i_)]))
+        st.assume(z3.ForAll([i_, j_], z3.Implies(z3.And(i_ >= 0, i_ < j_, j_ <= n0), perm(i_) != perm(j_)), patterns=[z3.MultiPattern(perm(i_), perm(j_))]))
         return V(S.NONE(), NoneT)
 
     wl_mod = lambda c: {'list': [c.old.attr(c.p.self, 'work_list')], 'dom': [c.old.attr(c.p.self, 'all_data')]}
@@ -114,10 +122,10 @@ def build():
                                                      c.new.attr(c.p.self, 'all_data') == c.old.attr(c.p.self, 'all_data')))
     reg.add(Contract(CS, 'SimpleWorkList.__len__', dict(self=WL), returns=Int,
                      ensures=[('number-of-queued-entries', lambda c: S.ival(c.res) == z3.Length(wl(c.old, c.p.self)))]))
-    reg.add(Contract(CS, 'SimpleWorkList.peek', dict(self=WL), returns=Any, requires=[('queue-invariant', lambda c: wl_inv(c, c.old, c.p.self))],
+    reg.add(Contract(CS, 'SimpleWorkList.peek', dict(self=WL), returns=Any, ghost_init=prio_def, requires=[('queue-invariant', lambda c: wl_inv(c, c.old, c.p.self))],
                      ensures=[('the-item-of-the-first-entry,-None-when-empty', lambda c: c.res == z3.If(z3.Length(wl(c.old, c.p.self)) > 0, item_of(S.at(wl(c.old, c.p.self), 0)), S.NONE())),
                               ('an-int-when-the-queue-holds-ints', lambda c: z3.Implies(z3.And(wl_ints(c, c.old, c.p.self), z3.Length(wl(c.old, c.p.self)) > 0), S.is_int(c.res)))]))
-    reg.add(Contract(CS, 'SimpleWorkList.pop', dict(self=WL), returns=Any,
+    reg.add(Contract(CS, 'SimpleWorkList.pop', dict(self=WL), returns=Any, ghost_init=prio_def,
                      requires=[('queue-invariant', lambda c: wl_inv(c, c.old, c.p.self))],
                      ensures=[('removes-the-first-entry-and-returns-its-item', lambda c: z3.If(
                          z3.Length(wl(c.old, c.p.self)) > 0,
@@ -129,7 +137,7 @@ def build():
                               ('queue-invariant', lambda c: wl_inv(c, c.new, c.p.self)),
                               ('still-only-ints', lambda c: z3.Implies(wl_ints(c, c.old, c.p.self), wl_ints(c, c.new, c.p.self)))],
                      modifies=wl_mod, fresh_fields=[]))
-    reg.add(Contract(CS, 'SimpleWorkList._add_with_priority', dict(self=WL, item=Any), returns=NoneT,
+    reg.add(Contract(CS, 'SimpleWorkList._add_with_priority', dict(self=WL, item=Any), returns=NoneT, ghost_init=prio_def,
                      requires=[('items-are-not-tuples', lambda c: z3.Not(S.is_tup(c.p.item))), ('queue-invariant', lambda c: wl_inv(c, c.old, c.p.self))],
                      ensures=[('queued-once-if-it-was-not-queued;-otherwise-nothing-changes', lambda c: z3.If(
                          z3.Select(ad(c.old, c.p.self), c.p.item),
@@ -148,7 +156,7 @@ def build():
     add_inv = lambda c: z3.And(wl_inv(c, c.cur, c.p.self), z3.Implies(wl_ints(c, c.pre, c.p.self), wl_ints(c, c.cur, c.p.self)),
                                c.cur.attr(c.p.self, 'work_list') == c.pre.attr(c.p.self, 'work_list'), c.cur.attr(c.p.self, 'all_data') == c.pre.attr(c.p.self, 'all_data'),
                                z3.Length(wl(c.cur, c.p.self)) >= z3.Length(wl(c.pre, c.p.self)))
-    reg.add(Contract(CS, 'SimpleWorkList.add', dict(self=WL, data=Any), returns=WL,
+    reg.add(Contract(CS, 'SimpleWorkList.add', dict(self=WL, data=Any), returns=WL, ghost_init=prio_def,
                      requires=[('queue-invariant', lambda c: wl_inv(c, c.old, c.p.self)), ('an-int-or-a-list-of-ints', lambda c: int_or_ints(c, c.old, c.p.data))],
                      loops={1: LoopSpec(invariants=[('queue-invariant;-only-grows', add_inv)],
                                         modifies=lambda c: {'list': [c.pre.attr(c.p.self, 'work_list')], 'dom': [c.pre.attr(c.p.self, 'all_data')]})},
